@@ -1,7 +1,7 @@
 SPECIFICATION Spec
 CONSTANTS
   MaxOps = 3
-  Tables = {1, 2, 3}
+  Tables = {1, 2, 3, 4}
   WorldSel = {0}
   KnownWords <- MCKnown
 INVARIANTS MechRefinesProp SameText
